@@ -132,6 +132,26 @@ def check_joinpath_assoc(ctx, u, a, b, case):
         ctx.fail("joinpath_assoc", case, f"joinpath(a,b)={str(x)!r} joinpath(a).joinpath(b)={str(y)!r} u/'a/b'={str(z)!r}")
 
 
+def check_joinpath_pieces(ctx, u, a, b, case):
+    """joinpath(a, b) == joinpath(a).joinpath(b) also when the pieces carry slashes (empty segments, trailing
+    slashes): the all-at-once splice and the step-by-step one must build the same path.  Dot segments are C15's."""
+    if a.startswith("/") or b.startswith("/") or any(sg in (".", "..") for sg in (a + "/" + b).split("/")):
+        return
+    x = guarded(lambda: u.joinpath(a, b))
+    y = guarded(lambda: u.joinpath(a).joinpath(b))
+    ctx.ev(("pieces", "exc" if is_exc(x) else "ok", a.count("/"), b.count("/"), a.endswith("//")) + shape(u))
+    if is_exc(x) or is_exc(y):
+        if is_exc(x) and is_exc(y):
+            return
+        ctx.fail("joinpath_assoc", case, f"joinpath(a,b)={x!r} stepwise={y!r}")
+        return
+    if x != y or x.raw_parts != y.raw_parts:
+        ctx.fail("joinpath_assoc", case, f"joinpath({a!r}, {b!r})={str(x)!r} but joinpath({a!r}).joinpath({b!r})={str(y)!r}")
+
+
+PIECES = ["a", "a/", "a//", "a///", "a/b", "a/b/", "a/b//", "", "a//b", "é/", "a b//", "x/y///", "/"]
+
+
 def check_with_name(ctx, u, n, case):
     r = guarded(lambda: u.with_name(n))
     ctx.ev(("with_name", "exc" if is_exc(r) else "ok", text_classes(n)) + shape(u))
@@ -216,6 +236,7 @@ def run(ctx):
             check_with_suffix(ctx, u, c["s"], c)
             if "b" in c:
                 check_joinpath_assoc(ctx, u, c["s"], c["b"], c)
+                check_joinpath_pieces(ctx, u, c["s"], c["b"], c)
         return
     r = ctx.rng
     tg = TextGen(r, surrogates=False)
@@ -247,6 +268,11 @@ def run(ctx):
             i += 1
             if ctx.mine(i):
                 check_with_suffix(ctx, u, x, {"base": b, "encoded": enc, "s": x})
+        for pa in PIECES:
+            for pb in PIECES:
+                i += 1
+                if ctx.mine(i):
+                    check_joinpath_pieces(ctx, u, pa, pb, {"base": b, "encoded": enc, "s": pa, "b": pb, "pieces": True})
     # random
     for k in range(ctx.params["n"]):
         b, enc, u = r.choice(bases)
@@ -274,6 +300,8 @@ def run(ctx):
         check_with_name(ctx, u2, s, case)
         t = tg.text(3)[0].replace("/", "")
         check_joinpath_assoc(ctx, u2, s, t, dict(case, b=t))
+        pa = s.lstrip("/") + r.choice(["", "/", "//", "///"])
+        check_joinpath_pieces(ctx, u2, pa, t + r.choice(["", "/", "//"]), dict(case, s=pa, b=t, pieces=True))
         x = ("." if r.random() < 0.85 else "") + tg.text(3)[0]
         check_with_suffix(ctx, u2, x, dict(case, s=x))
         if k % 701 == 0:
